@@ -91,6 +91,7 @@ Definition run_case (st : dstate) (x : sexp) : dstate * outcome :=
   | SList [SAtom "c11"; sid; tr; l; r; a; b; c] => (st, run_c11 st sid tr l r a b c)
   | SList (SAtom "c12" :: xs) => (st, run_c12 st xs)
   | SList (SAtom "c14" :: xs) => (st, run_c14 st xs)
+  | SList (SAtom "c14.interior" :: xs) => (st, run_c14_interior st xs)
   | SList (SAtom op :: _) => (st, out_bad ("unknown op " ++ op))
   | _ => (st, out_bad "not a case")
   end.
